@@ -35,7 +35,8 @@ def k4_importer_wakeup(res, tier):
     res.bounds = {'children of the importer': 'the module fiber or any other fiber', 'channels used by the child': 'none (get_runnable is not the subject)'}
     res.assumptions = ['the importer is in the state op_import leaves it in: Pending, its waiter runnable, not on the run queue (C17.K2 op_import)',
                        'the child uses no channel: a wake-up through a shared channel is a different path']
-    e.allow_havoc(r'^(laythe_core::)?(object::)?(\w+::)*ChannelWaiter::set_runnable$')
+    e.allow_havoc(r'^(laythe_core::)?(object::)?(\w+::)*ChannelWaiter::set_runnable$',
+                  r'^(fiber::)?Fiber::leave_channels$')      # cleaning the parent's waiter lists is the subject of C07.K3.resumed_fiber_leaves_lists
     res.bounds = dict(res.bounds)
 
     # the state the importer is left in: what op_import really does to it before it creates the module fiber
